@@ -35,10 +35,10 @@ CFG = {
                   "and index_exact (L0/L1/L2 entries = block summaries; i8 clamp, i16 and i32 folds lossless from FACTOR_L1 = "
                   "FACTOR_L2 = 32); find_close_in_word_fast_eq (byte-table fast path); find_close_from_eq (seven-state loop: "
                   "invariant + termination measure), method_find_close_eq, next_sibling_subtree_size_eq for the scalar builders "
-                  "(len < 2^31); storage_strays_variant_irrelevant. PARTIAL / NOT PROVED: SSE4.1 builders = scalar builders "
+                  "(len < 2^31); storage_strays_variant_irrelevant; select0_eq (+ total_ones) for every variant. PARTIAL / NOT PROVED: SSE4.1 builders = scalar builders "
                   "(simd_reduces_to_scalar_partial reduces the simd-build find_close family to that missing lemma; the lane "
                   "model is executed and compared with the scalar model and with the simd harness build on every request); "
-                  "select1 for WithSelect / WithCsPoppy and select0 (select1_noselect_partial only) - modelled and compared with "
+                  "select1 for WithSelect / WithCsPoppy (select1_noselect_partial only; select0_eq and total_ones are proved) - modelled and compared with "
                   "the spec by the driver, not proved. Tie: tables and constants regenerated each run, every constructor x select "
                   "support x build variant diffed against the compiled model, itself cross-checked against the linear-scan spec.",
     "level_note": "Trusts Lean kernel, the table/constant extractor, popcount / select_in_word semantics (C02), the SSE4.1 "
@@ -53,6 +53,7 @@ CFG = {
                    "SuccinctlyVerif/Proof/BPClose3.lean", "SuccinctlyVerif/Proof/BPSibling.lean", "SuccinctlyVerif/Proof/BPIndex.lean",
                    "SuccinctlyVerif/Proof/BPIndex2.lean", "SuccinctlyVerif/Proof/BPFcf.lean", "SuccinctlyVerif/Proof/BPFcf2.lean",
                    "SuccinctlyVerif/Proof/BPFcf3.lean", "SuccinctlyVerif/Proof/BPFast.lean", "SuccinctlyVerif/Proof/BPFast2.lean",
+                   "SuccinctlyVerif/Proof/BPSelect.lean", "SuccinctlyVerif/Proof/BPSelect0.lean",
                    "SuccinctlyVerif/Model/BP.lean", "SuccinctlyVerif/Spec/BPNav.lean"],
     "required_theorems": ["SV.Props.C04.byte_tables_eq", "SV.Props.C04.rank1_eq", "SV.Props.C04.find_close_eq",
                           "SV.Props.C04.find_open_eq", "SV.Props.C04.enclose_eq", "SV.Props.C04.find_close_from_eq",
